@@ -421,6 +421,8 @@ class Generator:
         header = list(it.header)
         sig = self.render_sig(header, spec)
         rec["signature"] = norm_tokens(it.header)
+        if spec.opts.get("vname"):
+            rec["vname"] = spec.opts["vname"]
         attrs = spec.opts.get("attrs")
         rec["assumed"] = bool(attrs and "external_body" in attrs)
         if attrs:
@@ -429,10 +431,15 @@ class Generator:
         self.out.append((sig, (spec.file, it.line)))
         is_free = bool(getattr(spec, "_free_name", None))
 
+        selfty_txt = spec.opts.get("selfty", "").replace(",", ", ") if is_free else ""
+
         def fr(text):
             if not is_free:
                 return text
             text = re.sub(r"\bself\b", "self_", text)
+            if selfty_txt:
+                text = re.sub(r"\bSelf::Item\b", "<%s as Iterator>::Item" % selfty_txt, text)
+                return re.sub(r"\bSelf\b", selfty_txt, text)
             return re.sub(r"\bSelf\b", "X", text)
         for ln in spec.contract:
             self.emit(fr(ln))
@@ -453,7 +460,7 @@ class Generator:
                 if t.kind == "ident" and t.text == "self":
                     t.text = "self_"
                 elif t.kind == "ident" and t.text == "Self":
-                    t.text = "X"
+                    t.text = selfty_txt if selfty_txt else "X"
             spec.entry = [fr(x) for x in spec.entry]
             spec.tail = [fr(x) for x in spec.tail]
             spec.loops = {k: (fl, [fr(x) for x in ls]) for k, (fl, ls) in spec.loops.items()}
@@ -584,7 +591,29 @@ class Generator:
             rest_txt = tight(rest_txt)
         head = tight(norm_tokens(toks[:p]))
         free_name = getattr(spec, "_free_name", None)
-        if free_name:
+        if free_name and spec.opts.get("selfty"):
+            # R16 for a method of a trait IMPL: free function over the concrete self type
+            selfty = spec.opts["selfty"].replace(",", ", ")
+            fg = spec.opts.get("freegen", "")
+            own = ""
+            mg = re.match(r"^(.*?\bfn\s+\w+)\s*(<.*>)?$", head)
+            if mg and mg.group(2):
+                own = (", " if fg else "") + mg.group(2)[1:-1]
+            head = "fn %s<%s%s>" % (free_name, fg.replace(",", ", "), own)
+            fixed = []
+            for x in newparams:
+                t = tight(x)
+                if t in ("&mut self", "& mut self"):
+                    fixed.append("self_: &mut %s" % selfty)
+                elif t in ("&self", "& self"):
+                    fixed.append("self_: &%s" % selfty)
+                elif t == "self":
+                    fixed.append("self_: %s" % selfty)
+                else:
+                    fixed.append(x)
+            newparams = fixed
+            self._free_selfty = selfty
+        elif free_name:
             # trait name and parameters from the container header:  pub trait Name<T> : ...
             m = re.match(r"(?:pub\s+)?trait\s+(\w+)\s*(<[^>]*>)?", norm_text(spec.container).replace(" ", "").replace("pubtrait", "pub trait ").replace("trait", "trait ", 1) if False else tight(norm_text(spec.container)))
             tname, tparams = m.group(1), (m.group(2) or "")
@@ -610,6 +639,10 @@ class Generator:
         if nvis:
             self.count("R0-pub(super)", nvis)
         sig = "%s(%s) %s" % (head, ", ".join(tight(x) for x in newparams), rest_txt)
+        if free_name and spec.opts.get("selfty"):
+            st = spec.opts["selfty"].replace(",", ", ")
+            sig = re.sub(r"\bSelf\s*::\s*Item\b", "<%s as Iterator>::Item" % st, sig)
+            sig = re.sub(r"\bSelf\b", st, sig)
         return self.apply_subst(sig, spec)
 
     def apply_subst(self, text, spec):
@@ -628,14 +661,14 @@ class Generator:
         for m in self._mut_params:
             out.append("    let mut %s = %s;" % (m, m))
         if self._mut_self:
-            out.append("    let mut __self = self;")
+            out.append("    let mut __self = %s;" % ("self_" if getattr(spec, "_free_name", None) else "self"))
         return out
 
     # ------------------------------------------------------------------
     def rewrite_body(self, body, spec, rec):
         if self._mut_self:
             for t in body:
-                if t.kind == "ident" and t.text == "self":
+                if t.kind == "ident" and t.text in ("self", "self_"):
                     t.text = "__self"
         body = self.rw_macros(body, spec)
         body = self.relex(text_of(body), body)   # macro arguments become ordinary tokens again
